@@ -29,6 +29,7 @@ func (u *Unit) constVal(st *State, c constant.Value, t types.Type) *Val {
 			v.S = "false"
 		}
 	case kString:
+		u.d.strLits[constant.StringVal(c)] = true
 		v.S = strLit(constant.StringVal(c))
 	case kFloat:
 		f, _ := constant.Float64Val(constant.ToFloat(c))
@@ -918,7 +919,14 @@ func (u *Unit) constPkgVar(st *State, o *types.Var) *Val {
 	et := elemType(o.Type())
 	arr := u.d.constant("table!"+key, arrSort(SInt, sortOf(et)))
 	for i, c := range info {
-		u.d.axiom(tEq(app("select", arr, intLit(int64(i))), u.scalar(st, u.constVal(st, c, et))))
+		el := u.scalar(st, u.constVal(st, c, et))
+		u.d.axiom(tEq(app("select", arr, intLit(int64(i))), el))
+		if kindOf(et) == kString {
+			// the uninterpreted string functions agree with govc's evaluation on the table's literals
+			if lit, ok := unquoteSMT(el); ok && isASCII(lit) {
+				u.d.axiom(tEq(app(u.d.fun("fn!fold", []string{SStr}, SStr), el), strLit(strings.ToLower(lit))))
+			}
+		}
 	}
 	return &Val{T: o.Type(), Arr: arr, Len: intLit(int64(len(info))), Nil: "false"}
 }
